@@ -5,6 +5,7 @@ read from the source as a table  guard -> template;  for every value kind that c
 with the library's real class relations, its template is rendered with the kind's shape class, and the rendering language must be
 included in the grammar form that reads back as the same kind (decided on character automata built from blackbird.g4)."""
 import ast
+import copy
 import re
 
 from ..report import Inconclusive
@@ -30,13 +31,16 @@ API_EXTRA = ["NpBool"]
 
 
 LIST_REBOUND = None
+CONVERTED = []
 
 
 class TemplateEval:
     """expression -> list of ('lit', text) | ('hole', shape) | ('trusted', what)"""
 
-    def __init__(self, ix, mod, fn, roles):
+    def __init__(self, ix, mod, fn, roles, lenient=False):
         self.ix, self.mod, self.fn, self.roles = ix, mod, fn, roles      # roles: name -> ('value', kind) | ('key',) | pieces
+        self.lenient = lenient        # an expression the evaluator does not understand becomes a hole of arbitrary text (over-approximation)
+        self.approx = []
 
     def ev(self, e):
         from ..py import norm
@@ -101,7 +105,12 @@ class TemplateEval:
                 return [("hole", "SH_SIGN")]
             if m2 and self.is_value(m2.group(1)) and (e.body.value, e.orelse.value) == ("+", "-"):
                 return [("hole", "SH_SIGN")]
-            raise Inconclusive("template: conditional piece `%s`" % " ".join(u(e).split())[:60])
+            # any other conditional between two string pieces: either may be written
+            return [("alt", [self.ev(e.body), self.ev(e.orelse)])]
+        if isinstance(e, ast.IfExp):
+            return [("alt", [self.ev(e.body), self.ev(e.orelse)])]
+        if False:
+            pass
         if isinstance(e, ast.Attribute) and isinstance(e.value, ast.Name) and self.is_value(e.value.id) and e.attr in ("real", "imag"):
             return [("hole", "SH_FLOAT")]
         if isinstance(e, ast.Call):
@@ -118,7 +127,7 @@ class TemplateEval:
                 if isinstance(target, ast.Lambda) and len(target.args.args) == len(e.args) == 1 and isinstance(e.args[0], ast.Name) and self.is_value(e.args[0].id):
                     sub = dict(self.roles)
                     sub[target.args.args[0].arg] = self.roles[e.args[0].id]
-                    return TemplateEval(self.ix, self.mod, self.fn, sub).ev(target.body)
+                    return TemplateEval(self.ix, self.mod, self.fn, sub, self.lenient).ev(target.body)
                 if isinstance(target, ast.Attribute) and target.attr == "format" and len(e.args) == 1:
                     fake = ast.Call(func=target, args=list(e.args), keywords=[])
                     return self.ev(fake)
@@ -131,6 +140,9 @@ class TemplateEval:
                         if r is not None:
                             return self.ev(r[0])
                     return [("trusted", q, tuple(u(a) for a in e.args))]
+        if self.lenient:
+            self.approx.append(" ".join(u(e).split())[:50])
+            return [("hole", "SH_ANYTEXT")]
         raise Inconclusive("template: expression `%s`" % " ".join(u(e).split())[:70])
 
     def is_value(self, name):
@@ -208,23 +220,64 @@ def select_arm(arms, var, kind):
     return pa[-1][0], pa[-1][1]
 
 
-def appended(ix, body, collections, inner_binding=None, fn=None):
-    """the expression appended to one of `collections` on the path selected by inner_binding (for nested p-type tests)"""
+def appended(ix, body, collections, inner_binding=None, fn=None, kind_atom=None, keep=("var_name",)):
+    """the expressions appended to one of `collections` on each path through the arm: a conditional inside the arm is decided by the
+    binding (nested p-type tests) or by the value kind where that is possible, otherwise both branches are followed.
+    -> list of paths, each a list of (call, expression, statement)"""
     from .c15 import eval_pred
-    stmts = list(body)
-    out = []
-    while stmts:
-        s = stmts.pop(0)
-        if isinstance(s, ast.If):
-            if inner_binding is None:
-                raise Inconclusive("template: conditional inside an arm")
-            c = eval_pred(ix, "program", s.test, inner_binding, fn=fn)
-            stmts = list(s.body if c else s.orelse) + stmts
-            continue
-        for n in ast.walk(s):
-            if isinstance(n, ast.Call) and isinstance(n.func, ast.Attribute) and n.func.attr == "append" and u(n.func.value) in collections and n.args:
-                out.append((n, n.args[0], s))
-    return out
+
+    def decide(test):
+        if inner_binding is not None:
+            try:
+                return bool(eval_pred(ix, "program", test, inner_binding, fn=fn))
+            except Exception:
+                pass
+        if kind_atom is not None:
+            try:
+                ev = AEval(kind_atom)
+                return bool(ev.truth(ev.ev(test)))
+            except Exception:
+                pass
+        return None
+
+    def walk(stmts, acc, env):
+        stmts = list(stmts)
+        while stmts:
+            s = stmts.pop(0)
+            if isinstance(s, ast.If):
+                c = decide(s.test)
+                if c is None:
+                    return walk(list(s.body) + stmts, list(acc), env) + walk(list(s.orelse) + stmts, list(acc), env)
+                stmts = list(s.body if c else s.orelse) + stmts
+                continue
+            if isinstance(s, (ast.Raise, ast.Return)):
+                return [acc] if isinstance(s, ast.Return) else []
+            if isinstance(s, (ast.For, ast.While, ast.Try, ast.With)):
+                if any(isinstance(n, ast.Call) and isinstance(n.func, ast.Attribute) and n.func.attr == "append" and u(n.func.value) in collections for n in ast.walk(s)):
+                    raise Inconclusive("template: the value is appended inside a loop / try in the arm")
+                continue
+            # local string pieces built up on this path (`expr = "pi"; expr += "/{}".format(den)`) are folded into the appended expression
+            if isinstance(s, ast.Assign) and len(s.targets) == 1 and isinstance(s.targets[0], ast.Name) and s.targets[0].id not in collections and s.targets[0].id not in keep:
+                env = dict(env)
+                env[s.targets[0].id] = norm._Sub(env).visit(copy.deepcopy(s.value))
+                continue
+            if isinstance(s, ast.AugAssign) and isinstance(s.op, ast.Add) and isinstance(s.target, ast.Name) and s.target.id in env:
+                env = dict(env)
+                env[s.target.id] = ast.BinOp(left=env[s.target.id], op=ast.Add(), right=norm._Sub(env).visit(copy.deepcopy(s.value)))
+                continue
+            for n in ast.walk(s):
+                if isinstance(n, ast.Call) and isinstance(n.func, ast.Attribute) and n.func.attr == "append" and u(n.func.value) in collections and n.args:
+                    e2 = norm._Sub({k_: v_ for k_, v_ in env.items() if stringish(v_)}).visit(copy.deepcopy(n.args[0])) if env else n.args[0]
+                    ast.fix_missing_locations(e2)
+                    acc = acc + [(n, e2, s)]
+        return [acc]
+
+    def stringish(v_):
+        return norm.fmt_parts(v_) is not None or isinstance(v_, (ast.IfExp, ast.BinOp, ast.JoinedStr)) or (isinstance(v_, ast.Constant) and isinstance(v_.value, str))
+    paths = walk(body, [], {})
+    if len(paths) > 24:
+        raise Inconclusive("template: too many paths through the arm")
+    return paths
 
 
 class Slot:
@@ -238,10 +291,28 @@ def find_slots(ix):
     f = ix.func(SER)
     fn = f.node
     slots = []
+    global CONVERTED
+    CONVERTED = []
     for l in walk_shallow(fn):
         if not isinstance(l, ast.For):
             continue
         it = " ".join(u(l.iter).split())
+        # a loop over a converted view of the arguments (map(f, op['args']), a generator expression): what is dispatched is no longer the
+        # stored value
+        if isinstance(l.iter, ast.Call) and u(l.iter.func) in ("map", "filter") and any(x in it for x in ("op['args']", "op['kwargs']", "data['options']")):
+            CONVERTED.append((f, l, it))
+            continue
+        if isinstance(l.iter, (ast.GeneratorExp, ast.ListComp)) and any(x in it for x in ("op['args']", "op['kwargs']", "data['options']")):
+            CONVERTED.append((f, l, it))
+            continue
+        # ... or the loop variable is rebound before the dispatch
+        tv = [x.id for x in ast.walk(l.target) if isinstance(x, ast.Name)]
+        if any(x in it for x in ("op['args']", "op['kwargs'].items()", "data['options'].items()")):
+            for s_ in l.body:
+                if isinstance(s_, ast.If):
+                    break
+                if isinstance(s_, ast.Assign) and any(isinstance(t_, ast.Name) and t_.id in tv for t_ in s_.targets):
+                    CONVERTED.append((f, s_, " ".join(u(s_).split())[:60]))
         if it in ("op['args']", 'op["args"]'):
             slots.append(Slot("positional argument", f, l, u(l.target), None, ("args",), False))
         elif it in ("op['kwargs'].items()", 'op["kwargs"].items()'):
@@ -278,31 +349,61 @@ def render_checks(rep, R, ix, L, slot, kinds, tdm_kinds=True):
               s = "p0" if kind == "PName" else "hello"
               t = "tdm" if kind == "PName" else "other"
               binding = {slot.var: s, "self.programtype['name']": t, 'self.programtype["name"]': t}
+          def kind_atom(node, kind=kind):
+              if isinstance(node, ast.Name) and node.id == slot.var and kind in XK:
+                  return XK[kind]
+              return AEval.NO
           try:
-              apps = appended(ix, body, slot.collections, binding, fn=f.node)
+              paths = appended(ix, body, slot.collections, binding, fn=f.node, kind_atom=kind_atom)
           except Exception as e:
               if kind == "NdArray":
                   continue          # the array arm is decided structurally by the hoisting rule
               rep.unknown(R, site, "%s is appended exactly once by the arm `%s`" % (what, which), "conditional inside the arm: %s" % e)
               continue
-          if len(apps) != 1:
-              rep.unknown(R, site, "%s is appended exactly once by the arm `%s`" % (what, which), "found %d appends" % len(apps))
+          if not paths or any(len(apps) != 1 for apps in paths):
+              rep.unknown(R, site, "%s is appended exactly once by the arm `%s`" % (what, which), "appends per path: %s" % [len(a_) for a_ in paths])
               continue
-          call, expr, stmt = apps[0]
-          roles = {slot.var: ("value", kind)}
-          if slot.key:
-              roles[slot.key] = ("key",)
-          roles["var_name"] = [("hole", "SH_ANAME")]
-          roles.update(local_aliases(body, roles))
-          try:
-              pieces = TemplateEval(ix, f.mod, f.node, roles).ev(expr)
-          except Inconclusive as e:
-              if kind == "NdArray":
-                  rep.bad(R, ix.site(f, call), "%s is replaced by the name of a hoisted declaration of its own" % what,
-                          "arm `%s` writes `%s`: the value may be replaced by a reference to a different variable" % (which, " ".join(u(expr).split())[:60]), key="%s|%s|%s" % (slot.name, kind, which[:40]))
-              else:
-                  rep.unknown(R, ix.site(f, call), "%s: template of `%s`" % (what, " ".join(u(expr).split())[:60]), str(e))
-              continue
+          for apps in paths:
+            call, expr, stmt = apps[0]
+            roles = {slot.var: ("value", kind)}
+            if slot.key:
+                roles[slot.key] = ("key",)
+            roles["var_name"] = [("hole", "SH_ANAME")]
+            roles.update(local_aliases(body, roles))
+            try:
+                pieces = TemplateEval(ix, f.mod, f.node, roles).ev(expr)
+            except Inconclusive as e:
+                # the exact rendering is not known - but if even the over-approximation (unknown pieces = any text) has nothing in common
+                # with the form this kind must be written in, every rendering on this path is wrong
+                if kind in READ_FORM and kind != "NdArray":
+                    try:
+                        te = TemplateEval(ix, f.mod, f.node, roles, lenient=True)
+                        approx = te.ev(expr)
+                        if slot.prefix and len(approx) >= 2 and approx[0] == ("hole", "SH_NAME") and approx[1][0] == "lit" and approx[1][1].startswith("="):
+                            approx = ([("lit", approx[1][1][1:])] if approx[1][1][1:] else []) + approx[2:]
+                        if not any(p_[0] in ("trusted", "repr") for p_ in flat_pieces(approx)):
+                            w_ = intersect_witness(L.of_pieces(approx), L.of_rule(READ_FORM[kind][0]))
+                            if w_ is None:
+                                rep.bad(R, ix.site(f, call), "%s: every rendering is a %s" % (what, READ_FORM[kind][0][2:]),
+                                        "on one path the arm writes `%s` (unknown pieces: %s): whatever they are, the text is not in the language of %s" % (
+                                            show_pieces(approx)[:80], te.approx[:3], READ_FORM[kind][0]), key="%s|%s|approx" % (slot.name, kind))
+                                continue
+                    except Inconclusive:
+                        pass
+                if kind == "NdArray":
+                    rep.bad(R, ix.site(f, call), "%s is replaced by the name of a hoisted declaration of its own" % what,
+                            "arm `%s` writes `%s`: the value may be replaced by a reference to a different variable" % (which, " ".join(u(expr).split())[:60]), key="%s|%s|%s" % (slot.name, kind, which[:40]))
+                else:
+                    rep.unknown(R, ix.site(f, call), "%s: template of `%s`" % (what, " ".join(u(expr).split())[:60]), str(e))
+                continue
+            if slot.prefix:
+                if len(pieces) >= 2 and pieces[0] == ("hole", "SH_NAME") and pieces[1][0] == "lit" and pieces[1][1].startswith("="):
+                    pieces = ([("lit", pieces[1][1][1:])] if pieces[1][1][1:] else []) + pieces[2:]
+                else:
+                    rep.bad(R, ix.site(f, call), "%s is written as <name>=<value>" % what, "template %s" % (pieces,), key="%s|%s|prefix" % (slot.name, kind))
+                    continue
+            decide(rep, R, ix, L, f, call, what, kind, pieces, which, slot)
+          continue
           if slot.prefix:
               if len(pieces) >= 2 and pieces[0] == ("hole", "SH_NAME") and pieces[1][0] == "lit" and pieces[1][1].startswith("="):
                   pieces = ([("lit", pieces[1][1][1:])] if pieces[1][1][1:] else []) + pieces[2:]
@@ -312,15 +413,36 @@ def render_checks(rep, R, ix, L, slot, kinds, tdm_kinds=True):
           decide(rep, R, ix, L, f, call, what, kind, pieces, which, slot)
 
 
+def flat_pieces(pieces):
+    for p_ in pieces:
+        if p_[0] == "alt":
+            for a in p_[1]:
+                yield from flat_pieces(a)
+        else:
+            yield p_
+
+
+def show_pieces(pieces):
+    out = []
+    for p_ in pieces:
+        if p_[0] == "lit":
+            out.append(p_[1])
+        elif p_[0] == "alt":
+            out.append("(" + " | ".join(show_pieces(a) for a in p_[1]) + ")")
+        else:
+            out.append("<%s>" % (p_[1],))
+    return "".join(out)
+
+
 def decide(rep, R, ix, L, f, call, what, kind, pieces, which, slot):
     site = ix.site(f, call)
     key = "%s|%s" % (slot.name, kind)
     src = " ".join(u(call).split())[:80]
-    if any(p[0] == "repr" for p in pieces):
-        bad = [p[1] for p in pieces if p[0] == "repr"]
+    if any(p[0] == "repr" for p in flat_pieces(pieces)):
+        bad = [p[1] for p in flat_pieces(pieces) if p[0] == "repr"]
         rep.bad(R, site, "%s is rendered in Blackbird syntax by `%s`" % (what, src), "str()/format() of a %s is Python repr syntax (np.int64(2), single-quoted strings, array(...)), not Blackbird" % bad[0], key=key)
         return
-    trusted = [p for p in pieces if p[0] == "trusted"]
+    trusted = [p for p in flat_pieces(pieces) if p[0] == "trusted"]
     if kind == "Sym":
         ok = len(pieces) == 1 and trusted and trusted[0][1] == "program.sympy_to_blackbird"
         rep.check(ok, R, site, "%s is written through the parameter re-bracing function" % what,
@@ -344,7 +466,7 @@ def decide(rep, R, ix, L, f, call, what, kind, pieces, which, slot):
     form, forbidden = READ_FORM[kind]
     lang = L.of_pieces(pieces)
     w = included(lang, L.of_rule(form))
-    shown = "".join(v if k == "lit" else "<%s>" % v for k, v in pieces)
+    shown = show_pieces(pieces)
     if w is not None:
         rep.bad(R, site, "%s: every rendering `%s` is a %s" % (what, shown, form[2:]), "e.g. %r is written, which is not in the language of %s" % (w, form), key=key)
         return
@@ -366,6 +488,12 @@ def kind_coverage(rep, R, ix, M, extra_kinds=()):
         rep.bad(R, ix.site(g, n), "list_to_blackbird formats the elements it is given", "`%s` replaces the list by a converted copy (mixed lists are coerced to one type)" % " ".join(u(n).split())[:70], key="list|rebound")
         slots = [s for s in slots if s.name != "list element"]
         names.add("list element")
+    for g_, n_, txt_ in CONVERTED:
+        rep.bad(R, ix.site(g_, n_), "every argument / option value is dispatched and written as it is stored in the program",
+                "`%s`: the values are converted before the type dispatch (a conversion can change the kind - a one-element array becomes a scalar, a NumPy scalar a Python one)" % txt_[:70],
+                key="converted|" + txt_[:50])
+    if CONVERTED:
+        names |= {"positional argument", "keyword argument"}
     for need in ("positional argument", "keyword argument", "metadata option", "list element"):
         if need not in names:
             raise Inconclusive("serialize: %s loop not recognised" % need)
